@@ -8,7 +8,7 @@ import numpy as np
 from .. import core
 from ..core import SKIP
 
-OPS = {"trackviews", "binned", "maploc", "gjaccard", "locsort", "fromtrack", "seqviews", "files", "sgeometry", "ctor"}
+OPS = {"trackviews", "binned", "maploc", "gjaccard", "locsort", "fromtrack", "seqviews", "files", "sgeometry", "ctor", "xgenome"}
 MODEL_OPS = {"trackviews", "binned", "maploc", "gjaccard", "locsort", "fromtrack"}
 
 
@@ -136,6 +136,31 @@ def call(c):
         loc = GenomicLocation.from_fields(ctx, ch, np.clip(st, 0, None), strand)
         out["locstrand"] = [bool(x) for x in np.asarray(loc.strand == "+").ravel()]
         return out
+    if op == "xgenome":
+        # a track on one genome object indexed with intervals / a mask from ANOTHER genome object over the same
+        # chromosomes (other order: permutation or sort_names); both objects alive in this process
+        from bionumpy.streams import NpDataclassStream
+        GA = bnp.Genome.from_dict(dict(zip(names, sizes)))
+        if c["order2"] == "sort":
+            GB = bnp.Genome.from_dict(dict(zip(names, sizes)), sort_names=True)
+        else:
+            GB = bnp.Genome.from_dict({names[i]: sizes[i] for i in c["order2"]})
+        stranded = bool(c.get("stranded", False))
+        bg = m._bedgraph_from_vals(c)
+        stream = c.get("path") == "stream"
+        track = GA.get_track(NpDataclassStream(iter([bg]), BedGraph)) if stream else GA.get_track(bg)
+        gi = GB.get_intervals(m._mk_intervals(c, stranded), stranded=stranded)
+        if c["what"] == "bool":
+            b = track[gi.get_mask()]
+            return {"bool": m._ints(b.to_array() if hasattr(b, "to_array") else b)}
+        if c["what"] == "and":
+            ma = GA.get_intervals(m._mk_intervals(dict(c, iv=c["iv2"]), False)).get_mask()
+            both = ma & gi.get_mask()
+            return {"and": int(both.sum())}
+        r = track[gi]
+        if stream:
+            r = bnp.compute(r)
+        return {"rows": m._rows(r)}
     if op == "files":
         return _files(c)
     if op == "sgeometry":
@@ -358,6 +383,28 @@ def oracle(c):
             b = c["bin"]
             out["binned"] = [[sum(1 for x in fpts if x[0] == i and x[1] // b == k) for k in range((sizes[i] + b - 1) // b)] for i in order_idx]
         return out
+    if op == "xgenome":
+        if not valid or not iv or any(x[1] == x[2] for x in iv) or any("_" in n for n in names):
+            return SKIP
+        order2 = sorted(range(len(names)), key=lambda i: names[i]) if c["order2"] == "sort" else list(c["order2"])
+        if c.get("path") == "stream" and [order2.index(x[0]) for x in iv] != sorted(order2.index(x[0]) for x in iv):
+            return SKIP                                # streamed intervals come in their own genome's order
+        stranded = bool(c.get("stranded", False))
+        same = order2 == list(range(len(names)))
+        if c["what"] == "bool":
+            return {"bool": [c["vals"][i][p] for i in range(len(names)) for p in range(sizes[i]) if mask_of(i, iv)[p]],
+                    "refusal_ok": not same}
+        if c["what"] == "and":
+            iv2 = c["iv2"]
+            if any(not (0 <= x[1] < x[2] <= sizes[x[0]]) for x in iv2):
+                return SKIP
+            return {"and": sum(1 for i in range(len(names)) for p in range(sizes[i]) if mask_of(i, iv)[p] and mask_of(i, iv2)[p]),
+                    "refusal_ok": not same}
+        rows = []
+        for x in iv:
+            row = c["vals"][x[0]][x[1]:x[2]]
+            rows.append(row[::-1] if (stranded and not x[3]) else row)
+        return {"rows": rows, "refusal_ok": not same}
     if op == "ctor":
         if not iv:
             return SKIP
@@ -406,9 +453,71 @@ def nontrivial(c):
 
 # ------------------------------------------------------------------ generators
 
+def _many_contig_cases(rng, big):
+    """genomes with more contigs than fit one byte (chromosome codes 256, 257, ...): every op with entries on the
+    contigs around index 255/256 and on the last one"""
+    for n in ((257, 300, 600) if big else (257, 300)):
+        names = [f"chr{i}" for i in range(1, n + 1)]
+        sizes = [1 + (i % 3) for i in range(n)]
+        base = {"names": names, "sizes": sizes, "filt": True}
+        hi = [0, 1, 254, 255, 256, 257 % n, n - 1]
+        hi = sorted(set(hi))
+        offs = [sum(sizes[:c]) for c in hi]
+        yield dict(base, op="g2l", gs=sorted(set(offs + [o + sizes[c] - 1 for o, c in zip(offs, hi)])))
+        yield dict(base, op="l2g", pts=[[c, sizes[c] - 1] for c in hi])
+        yield dict(base, op="lookup", queries=[names[c] for c in reversed(hi)])
+        iv = [[c, 0, sizes[c], c % 2 == 0] for c in hi]
+        rev = list(reversed(iv))
+        vals = [[(7 * c + p) % 5 for p in range(s)] for c, s in enumerate(sizes)]
+        pts = [[c, sizes[c] - 1] for c in hi]
+        for via in ("genome", "geometry"):
+            yield dict(base, op="sort", via=via, iv=rev)
+            yield dict(base, op="pileup", via=via, iv=rev, stranded=False)
+            yield dict(base, op="mask", via=via, iv=iv, stranded=False)
+            yield dict(base, op="merge", via=via, iv=iv, d=0)
+            yield dict(base, op="clip", via=via, iv=[[c, -1, s + 2, f] for c, _, s, f in rev])
+            yield dict(base, op="extend", via=via, iv=rev, L=2, stranded=True)
+        for path in ("as_stream", "stream"):
+            yield dict(base, op="pileup", via="genome", path=path, iv=iv, cuts=[2, 5], stranded=False)
+            yield dict(base, op="merge", via="genome", path=path, iv=iv, cuts=[3], d=1)
+        yield dict(base, op="windows", pts=list(reversed(pts)), flank=1, wsize=None)
+        yield dict(base, op="extract", iv=rev, stranded=True, vals=vals)
+        yield dict(base, op="location", iv=rev, stranded=True, where=1)
+        yield dict(base, op="locsort", pts=list(reversed(pts)))
+        yield dict(base, op="binned", pts=pts, bin=2, split=3)
+        yield dict(base, op="maploc", iv=rev, pts=pts)
+        yield dict(base, op="trackviews", iv=iv, pts=list(reversed(pts)), vals=vals)
+        yield dict(base, op="fromtrack", iv=rev)
+        yield dict(base, op="ctor", iv=rev, L=1, split=3)
+        yield dict(base, op="gjaccard", sets=[iv[:4], iv[2:], iv], vals=vals)
+
+
 def cases(tier, rng):
     m = _c10()
     big = tier in ("thorough", "widen")
+    yield from _many_contig_cases(rng, big)
+    # two genome objects over the same chromosomes in different orders, alive together: a track of one indexed with
+    # intervals / a mask of the other must give the right chromosome's values or refuse
+    for names in (["chr1", "chr2", "chr10"], ["b", "a", "ab"], ["chr2", "chr1", "chr11", "chr3"]):
+        n = len(names)
+        orders = ["sort", list(range(n)), list(reversed(range(n)))] + ([rng.sample(range(n), n)] if big else [])
+        for _ in range(6 if big else 2):
+            sizes = [rng.choice([3, 4, 4, 5, 6]) for _ in names]          # equal sizes make a silent swap possible
+            vals = [[10 * (i + 1) + p for p in range(s)] for i, s in enumerate(sizes)]
+            iv = m._rand_iv(rng, sizes, list(range(n)), rng.choice([2, 3, 5]), nonempty=True)
+            for order2 in orders:
+                o2 = sorted(range(n), key=lambda i: names[i]) if order2 == "sort" else order2
+                siv = sorted(iv, key=lambda x: o2.index(x[0]))
+                for stranded in (False, True):
+                    yield {"op": "xgenome", "names": names, "sizes": sizes, "filt": True, "order2": order2, "vals": vals,
+                           "iv": iv, "stranded": stranded, "path": "mem", "what": "extract"}
+                    yield {"op": "xgenome", "names": names, "sizes": sizes, "filt": True, "order2": order2, "vals": vals,
+                           "iv": siv, "stranded": stranded, "path": "stream", "what": "extract"}
+                yield {"op": "xgenome", "names": names, "sizes": sizes, "filt": True, "order2": order2, "vals": vals,
+                       "iv": iv, "stranded": False, "path": "mem", "what": "bool"}
+                yield {"op": "xgenome", "names": names, "sizes": sizes, "filt": True, "order2": order2, "vals": vals,
+                       "iv": iv, "iv2": m._rand_iv(rng, sizes, list(range(n)), 3, nonempty=True), "stranded": False,
+                       "path": "mem", "what": "and"}
     # the boundary witnesses first: a location at position 0 of the next chromosome / exactly at an interval's stop
     yield {"op": "maploc", "names": ["chr1", "chr2"], "sizes": [5, 5], "filt": True,
            "iv": [[0, 3, 5, True], [1, 1, 3, True]], "pts": [[0, 3], [0, 4], [1, 0], [1, 1], [1, 2], [1, 3]]}
